@@ -308,6 +308,8 @@ def gen_kwargs(W, rng, form, tr, te):
             own = rng.choice([x for x in (tr + te) if isinstance(x, m['ScalarFunction'])] or [W.w])
             out.append(('kw-own-argument', {a: own}))
     out.append(('kw-unknown', {rng.choice(['zz', 'alpha', 'u', 'nosuch']): 1}))
+    # coordinates and normals are not free variables (added after seeded change C10-4)
+    out.append(('kw-unknown-coordinate', {rng.choice(['x', 'y', 'x1', 'x2', 'x3', 'nn']): 3}))
     if names and rng.random() < 0.5:
         out.append(('kw-unknown-mixed', {names[0]: free[names[0]], 'nosuch2': 2}))
     return out
@@ -432,6 +434,11 @@ def check_call(o, W, form, tr, te, pos, kw, label, bilinear, m):
         else:
             vals = list(pos)
     free = dict(form.get_free_variables())
+    # independent notion of "free variable" (the property: coefficient fields and constants of the
+    # integrands, by name — never coordinates, normals, domains or the form's own arguments)
+    argnames = {getattr(x, 'name', None) for x in variables}
+    indep = {a.name for a in form.expr.atoms(m['Constant'], m['ScalarFunction'], m['VectorFunction'])} - argnames
+    free = {n: v_ for n, v_ in free.items() if n in indep}
     desc = '%s(%s%s)' % ('a' if bilinear else 'l', ', '.join(str(p) for p in pos), ''.join(', %s=%s' % kv for kv in kw.items()))
     key = 'call:%s:%s:%s' % (label, str(form.expr)[:160], desc[:160])
     r = call(form, *pos, **kw)
